@@ -18,7 +18,7 @@
 use crate::attributes::{NamedTypeOptions, Repr, VariantOptions};
 use crate::enums::{FieldVariants, SchemaType, variant_to_schema_expr};
 use crate::implementation::Implementation;
-use crate::utils::json_value_expr;
+use crate::utils::{json_value_expr, name_expr};
 use proc_macro2::Ident;
 use quote::quote;
 use std::collections::{BTreeSet, HashSet};
@@ -99,10 +99,18 @@ pub fn to_implementation(
         ::apache_avro::schema::Schema::Union(builder.build())
     }};
 
-    Ok(Implementation::named(
+    // A union has no name: it must not be registered in `named_schemas`, a second use of the enum
+    // would otherwise be a reference to a name that is not defined anywhere
+    let name_expr = name_expr(&container_attrs.name);
+    let schema_expr = quote! {
+        let name = #name_expr;
+        let enclosing_namespace = name.namespace();
+        #schema_expr
+    };
+
+    Ok(Implementation::unnamed(
         ident,
         generics,
-        &container_attrs.name,
         schema_expr,
         None,
         container_attrs
